@@ -187,7 +187,13 @@ def inject_run(arg):
     # faults: list of (syscall, ordinal, expected path)
     cmd, env, cwd = prepare(root, name)
     log = root + ".inj.log"
-    r = strace(cmd, env, cwd, log, [f"{sc}:error={errno}:when={k}" for sc, k, _ in faults])
+    # strace keeps only ONE inject expression per syscall name: two ordinals of the same syscall are
+    # expressed as when=first+step (which also hits later multiples - still a valid fault sequence)
+    exprs = {}
+    for sc, k, _ in faults:
+        exprs.setdefault(sc, []).append(k)
+    inj = [f"{sc}:error={errno}:when={ks[0]}" if len(ks) == 1 else f"{sc}:error={errno}:when={ks[0]}+{ks[1] - ks[0]}" for sc, ks in exprs.items()]
+    r = strace(cmd, env, cwd, log, inj)
     calls, code = parse_log(log, root)
     snap = snapshot(root)
     delivered = []
@@ -200,7 +206,7 @@ def inject_run(arg):
     if os.path.exists(ml):
         marks = open(ml).read()
     shutil.rmtree(root, ignore_errors=True)
-    return code, snap, delivered, r.stdout.decode(errors="replace")[-300:], marks
+    return code, snap, delivered, r.stderr.decode(errors="replace")[-300:], marks
 
 
 def self_test(scratch):
